@@ -7,7 +7,7 @@ package snap
 // as inner ring. Checked per input: no panic, returns within the time limit, and every vertex of every returned
 // ring is one of the input vertices (the assembly may only rearrange or drop vertices).
 // Longer pseudo-random zig-zag rings (repeated back-and-forth runs, the patterns kmpDeduplicate is written for)
-// follow. Nothing here counts as proved.
+// and word rings (a short random word repeated and reversed) follow. Nothing here counts as proved.
 
 import (
 	"fmt"
@@ -143,6 +143,46 @@ func TestGvcC06RingAssembly(t *testing.T) {
 		}
 	}
 	fmt.Printf("GVC-DATA %s\n", gvcJSON2(map[string]any{"part": "pseudo-random zig-zag rings of 4..40 vertices over 6 points", "seed": seed, "evaluations": evals}))
+
+	// word rings: a random word of 2..7 letters over 2..4 pixel centres, repeated, reversed and mixed with single
+	// letters, 8..47 vertices (the generator that found defect F9: overlapping removal ranges need about 25 vertices)
+	n = 600000
+	if thorough {
+		n = 8000000
+	}
+	evals = 0
+	for i := 0; i < n && fails <= 3; i++ {
+		k := 2 + rnd.Intn(3)
+		l := 8 + rnd.Intn(40)
+		w := make([][2]float64, 2+rnd.Intn(6))
+		for j := range w {
+			w[j] = pts[rnd.Intn(k)]
+		}
+		ring := make([][2]float64, 0, l+8)
+		for len(ring) < l {
+			switch rnd.Intn(4) {
+			case 0:
+				ring = append(ring, pts[rnd.Intn(k)])
+			case 1:
+				for j := len(w) - 1; j >= 0; j-- {
+					ring = append(ring, w[j])
+				}
+			default:
+				ring = append(ring, w...)
+			}
+		}
+		clean := ring[:1]
+		for _, p := range ring[1:] {
+			if p != clean[len(clean)-1] {
+				clean = append(clean, p)
+			}
+		}
+		evals++
+		if !gvcAssembleOne(t, clean, rnd.Intn(2) == 0) {
+			fails++
+		}
+	}
+	fmt.Printf("GVC-DATA %s\n", gvcJSON2(map[string]any{"part": "word rings (repeated / reversed random words) of 8..47 vertices over 2..4 points", "seed": seed, "evaluations": evals}))
 }
 
 func gvcJSON2(v any) string {
